@@ -277,6 +277,7 @@ struct Thunk {
             else for (int total : {63, 64, 65, 66, 127, 128, 129, 130, 191, 192, 193, 255, 256, 257, 258, 319, 320, 321, 511, 512, 513}) for (int m1 = int(t.G); m1 <= total; m1 += 16) { ex.family_missrun(m1, total - m1); if (r.deadline_passed()) return; }
             return;
         }
+        if (t.kind == 4) { ex.family_mult(axis_values<D, T>(0), {0, 1, 2, 65, 130}, t.fixed); return; }
         if (t.kind == 0) ex.family_mult(axis_values<D, T>(t.axis_id), {0, 1, 65}, t.fixed);
         else if (t.kind == 1) ex.family_grid(T(t.G), t.lo0);
         else {
@@ -349,9 +350,11 @@ int main(int argc, char **argv) {
                 for (int a = 0; a < 3; ++a) for (int b = 0; b < 3; ++b) { Task t{int(c), 0, {a, b}, axis_id, 0, 0, {}}; tasks.push_back(t); }
             }
         else if (thorough && !asan) for (int a = 0; a < 3; ++a) for (int b = 0; b < 3; ++b) { Task t{int(c), 0, {1, 1, 1, 1, 1, 1, 1, 1, a, b}, 0, 0, 0, {}}; tasks.push_back(t); }   // 4D: 16 cells, the first 8 fixed to one copy, {0,1,65}^8 on the rest
+        // (a') thorough, 2D: multiplicities {0,1,2,65,130} on the 3x3 universe (5^9 multisets), split by the first three digits
+        if (thorough && D == 2 && c <= 2 && !asan) for (int a = 0; a < 5; ++a) for (int b = 0; b < 5; ++b) for (int d = 0; d < 5; ++d) { Task t{int(c), 4, {a, b, d}, 0, 0, 0, {}}; tasks.push_back(t); }
         // (b) full grids, every box
         std::vector<long> grids;
-        if (D == 2) { grids = {16}; if (c <= 1 || thorough) grids.push_back(32); }
+        if (D == 2) { grids = {16}; if (c <= 1 || thorough) grids.push_back(32); if (thorough && c <= 1 && !asan) grids.push_back(48); }
         else if (D == 3) grids = thorough ? std::vector<long>{4, 8} : std::vector<long>{8};
         else grids = {4};
         if (asan && !thorough) { if (D == 2) grids = {16}; else if (D == 3) grids = {4}; }
